@@ -1,6 +1,7 @@
 import Woodpile.Driver.Util
 import Woodpile.Driver.IterScript
 import Woodpile.Model.RoughTlv
+import Woodpile.Model.RoughTlvApi
 import Woodpile.Gen.Consts
 
 /-!
@@ -71,7 +72,9 @@ def viewObs (d : List UInt8) (lookups : List Nat) : Option (List String) := do
       "iter " ++ (if it.isEmpty then "-" else ";".intercalate (it.map pairStr)),
       "get " ++ " ".intercalate gets,
       "getv " ++ " ".intercalate getvs,
-      "find " ++ (if finds.isEmpty then "-" else " ".intercalate finds)]
+      "find " ++ (if finds.isEmpty then "-" else " ".intercalate finds),
+      -- `inner()` / `into_inner()`: the bytes the view was built from (track apigaps)
+      "inner " ++ toHex v.inner ++ " " ++ b01 (v.intoInner == v.inner)]
 
 def viewObsOrPanic (d : List UInt8) (lookups : List Nat) : List String :=
   match viewObs d lookups with
@@ -149,6 +152,20 @@ def viewStep (s : Unit) : List String → Unit × List String
     match parseHex hex, parseNatList lk with
     | some d, some lookups =>
       if lookups.all (· < 4294967296) then (s, (viewTerse d lookups).getD ["panic"]) else (s, ["bad-op"])
+    | _, _ => (s, ["bad-op"])
+  -- `Tag` conversions and ordering (track apigaps): `tag <u32> <u32>`
+  | ["tag", a, b] =>
+    match a.toNat?, b.toNat? with
+    | some x, some y =>
+      if x < 4294967296 ∧ y < 4294967296 then
+        let ta := tagOfU32 x
+        let tb := tagOfU32 y
+        let ord (o : Ordering) : String := match o with | .lt => "lt" | .eq => "eq" | .gt => "gt"
+        (s, ["tag a=" ++ toString (tagValue ta) ++ ":" ++ toHex ta ++ " b=" ++ toString (tagValue tb) ++ ":" ++ toHex tb
+              ++ " cmp=" ++ ord (tagCmp ta tb)
+              ++ " pcmp=" ++ (match tagPartialCmp ta tb with | some o => ord o | none => "none")
+              ++ " new=" ++ toString (tagValue (tagNew ta))])
+      else (s, ["bad-op"])
     | _, _ => (s, ["bad-op"])
   | _ => (s, ["bad-op"])
 
